@@ -8,6 +8,7 @@ package main
 
 import (
 	"bufio"
+	"bytes"
 	"encoding/binary"
 	"fmt"
 	"math/rand"
@@ -17,6 +18,7 @@ import (
 	"sync/atomic"
 	"time"
 
+	"github.com/mdzio/go-mqtt/message"
 	"github.com/mdzio/go-mqtt/service"
 	"github.com/mdzio/go-mqtt/sessions"
 	"github.com/mdzio/go-mqtt/topics"
@@ -55,10 +57,157 @@ func simpleConnect(cid string, keepAlive int, will *wWill) wConnect {
 	return wConnect{protoName: []byte("MQTT"), version: 4, clean: true, clientID: []byte(cid), keepAlive: keepAlive, will: will}
 }
 
+// concSrv: `conc srv <npub> <nmsg> <bufsize>` - npub goroutines call Server.Publish at the same time,
+// goroutine k on its own topic s/<k> (QoS 0 and 1 alternating, payload = k, running number, filler).
+// Subscribers: one in-process callback per topic and one network subscriber on s/#.  Every
+// subscriber must get exactly the messages of its topics, each publisher's in order, intact, and
+// nothing else; no Publish may panic (the goroutines recover and report).  What one overlapping
+// in-process publish does to another is invisible to the serialised broker runs.
+func concSrv(npub, nmsg, bufsize int) string {
+	svr := newServer(int64(bufsize))
+	sub, ok := rawConnect(svr, 1, simpleConnect("sub", 300, nil))
+	if !ok {
+		return "sub-refused"
+	}
+	sub.write(wSubscribe(1, [][]byte{[]byte("s/#")}, []int{1}))
+	sub.waitUntil(func() bool { return len(sub.items) > 0 }, brokerWait)
+	sub.take()
+	type rec struct {
+		topic   string
+		payload []byte
+	}
+	var mu sync.Mutex
+	got := make([][]rec, npub) // what callback k was handed
+	cbs := make([]service.OnPublishFunc, npub)
+	apierr := false
+	for k := 0; k < npub; k++ {
+		k := k
+		cbs[k] = func(m *message.PublishMessage) error {
+			r := rec{string(m.Topic()), append([]byte{}, m.Payload()...)}
+			mu.Lock()
+			got[k] = append(got[k], r)
+			mu.Unlock()
+			return nil
+		}
+		if err := svr.Subscribe(fmt.Sprintf("s/%d", k), 1, &cbs[k]); err != nil {
+			apierr = true
+		}
+	}
+	payload := func(k, i int) []byte {
+		pl := make([]byte, 8+(k*7+i*13)%40)
+		binary.BigEndian.PutUint32(pl[0:], uint32(k))
+		binary.BigEndian.PutUint32(pl[4:], uint32(i))
+		for j := 8; j < len(pl); j++ {
+			pl[j] = byte(k*31 + i + j)
+		}
+		return pl
+	}
+	var wg sync.WaitGroup
+	var panics, errs int64
+	start := make(chan struct{})
+	for k := 0; k < npub; k++ {
+		wg.Add(1)
+		go func(k int) {
+			defer wg.Done()
+			defer func() {
+				if r := recover(); r != nil {
+					atomic.AddInt64(&panics, 1)
+				}
+			}()
+			<-start
+			for i := 0; i < nmsg; i++ {
+				m := message.NewPublishMessage()
+				m.SetTopic([]byte(fmt.Sprintf("s/%d", k)))
+				m.SetQoS(byte((k + i) % 2))
+				m.SetPayload(payload(k, i))
+				if err := svr.Publish(m); err != nil {
+					atomic.AddInt64(&errs, 1)
+				}
+			}
+		}(k)
+	}
+	close(start)
+	done := make(chan struct{})
+	go func() { wg.Wait(); close(done) }()
+	select {
+	case <-done:
+	case <-time.After(60 * time.Second):
+		return "publishers-stuck"
+	}
+	b := &brokerCore{clients: map[int]*rawClient{}}
+	okAll := b.barrier(sub)
+	wellformed, ordered, count := 1, 1, 0
+	intact := func(pl []byte, topic string) (k uint32, i int64, ok bool) {
+		if len(pl) < 8 {
+			return 0, 0, false
+		}
+		k, i = binary.BigEndian.Uint32(pl[0:]), int64(binary.BigEndian.Uint32(pl[4:]))
+		if int(k) >= npub || i >= int64(nmsg) || !bytes.Equal(pl, payload(int(k), int(i))) || topic != fmt.Sprintf("s/%d", k) {
+			return k, i, false
+		}
+		return k, i, true
+	}
+	// the network subscriber: everything, per-publisher order
+	last := map[uint32]int64{}
+	for _, it := range sub.take() {
+		if it == "MALFORMED" || it == "TRUNCATED" {
+			wellformed = 0
+			continue
+		}
+		if !strings.HasPrefix(it, "PUB ") {
+			continue
+		}
+		w := strings.Fields(it)
+		k, i, ok := intact(unhex(w[6]), string(unhex(w[4])))
+		if !ok {
+			wellformed = 0
+		}
+		if prev, seen := last[k]; seen && i <= prev {
+			ordered = 0
+		}
+		last[k] = i
+		count++
+	}
+	// the callbacks: callback k got the messages of publisher k, all of them, in order, nothing else
+	mu.Lock()
+	for k := 0; k < npub; k++ {
+		prev := int64(-1)
+		for _, r := range got[k] {
+			kk, i, ok := intact(r.payload, r.topic)
+			if !ok || int(kk) != k {
+				wellformed = 0
+			}
+			if i <= prev {
+				ordered = 0
+			}
+			prev = i
+			count++
+		}
+	}
+	mu.Unlock()
+	sub.conn.Close()
+	res := fmt.Sprintf("wellformed=%d ordered=%d count=%d", wellformed, ordered, count)
+	if apierr || errs > 0 {
+		res += " apierr"
+	}
+	if panics > 0 {
+		res += " PANIC"
+	}
+	if !okAll {
+		res += " TIMEOUT"
+	}
+	return res
+}
+
 func (concCore) handle(ws []string) string {
 	switch ws[0] {
 	case "reset":
 		return "reset"
+	case "srv":
+		if len(ws) != 4 {
+			return "bad-op"
+		}
+		return concSrv(atoi(ws[1]), atoi(ws[2]), atoi(ws[3]))
 	case "run", "lap":
 		npub, nmsg, size, qos, bufsize := atoi(ws[1]), atoi(ws[2]), atoi(ws[3]), atoi(ws[4]), atoi(ws[5])
 		// "lap": the subscriber stops reading until the publishers' writes stall - the subscriber's
@@ -208,6 +357,11 @@ func genConc(seed int64, n int, tier string, w *bufio.Writer) {
 			size = 100000 + pick(r, []int{1200, 3007, 6000})
 			nmsg = 120 + r.Intn(200)
 			npub = 1 + r.Intn(3)
+		}
+		if i%4 == 3 {
+			// overlapping in-process publishes (Server.Publish from several goroutines at once)
+			fmt.Fprintf(w, "conc srv %d %d %d\n", 2+r.Intn(7), 100+r.Intn(300), 16384)
+			continue
 		}
 		if i%4 == 1 {
 			// packets of at least one read block (8 KiB), so that the receiver refills the very bytes a
